@@ -55,7 +55,8 @@ class Log:
         m, n = norm_global(module, name)
         st = self.globs.get((m, n))
         if st is None:
-            st = self.globs[(m, n)] = Stub(self, ("glob", m, n))
+            cls = FrozensetStub if (m, n) == ("builtins", "frozenset") else Stub
+            st = self.globs[(m, n)] = cls(self, ("glob", m, n))
         return st
 
     def add(self, ev):
@@ -123,12 +124,6 @@ class Stub:
         if not self.muts:
             if self.desc[0] == "glob":
                 return self.desc
-            # frozenset([...]) is how a FROZENSET opcode has to be spelled in Python: a call of the
-            # builtin on a list/set/tuple display is canonically the frozenset itself (both sides)
-            d = self.desc
-            if d[0] == "res" and d[1][0] == "call" and d[1][1] == ("glob", "builtins", "frozenset") \
-                    and not d[1][3] and len(d[1][2][1]) == 1 and d[1][2][1][0][0] in ("list", "set", "tuple"):
-                return ("frozenset", tuple(sorted(set(d[1][2][1][0][1]), key=repr)))
             return ("obj", self.desc, ())
         i = id(self)
         if i in path:
@@ -177,6 +172,23 @@ class Stub:
 
     def __repr__(self):
         return f"<Stub {self.desc!r}>"
+
+
+class FrozensetStub(Stub):
+    """builtins.frozenset: `frozenset([...])` is the only way a FROZENSET opcode can be spelled in
+    Python, so on both sides the call is logged *and* really builds the frozenset from the (real or
+    stub) element objects - Python's own equality / hashing then decides what collapses."""
+    __slots__ = ()
+
+    def __call__(self, *a, **k):
+        c = Canon()
+        self.log.add(("call", c(self), c(a), c(k) if k else ()))
+        if k or len(a) > 1:
+            return Stub(self.log, ("res", self.log.events[-1]))
+        try:
+            return frozenset(*a)
+        except TypeError:
+            return Stub(self.log, ("res", self.log.events[-1]))
 
 
 class ModStub:
